@@ -131,7 +131,8 @@ class MVContext:
 
         names_to_indexes_map = {m: m_i for m_i, m in enumerate(self._attribute_names)}
         pattern_structures = []
-        for name, ps_type in pattern_types.items():
+        # keep the pattern structures aligned with ``attribute_names`` whatever the order of the dict is
+        for name, ps_type in sorted(pattern_types.items(), key=lambda name_type: names_to_indexes_map[name_type[0]]):
             m_i = names_to_indexes_map[name]
             ps_data = [row[m_i] for row in data]
             ps = ps_type(ps_data, name=name)
